@@ -192,6 +192,12 @@ def nonempty_facts(test: ast.AST, polarity: bool) -> Set[str]:
         return {test.id} if polarity else set()
     if isinstance(test, ast.UnaryOp) and isinstance(test.op, ast.Not):
         return nonempty_facts(test.operand, not polarity)
+    if isinstance(test, ast.Call) and norm(test.func) in ("bool", "len") and len(test.args) == 1 and isinstance(test.args[0], ast.Name) and not test.keywords:
+        return {test.args[0].id} if polarity else set()
+    if isinstance(test, ast.Compare) and len(test.ops) == 1 and isinstance(test.left, ast.Name) and isinstance(test.comparators[0], (ast.Tuple, ast.List)) and not test.comparators[0].elts:
+        if (isinstance(test.ops[0], ast.NotEq) and polarity) or (isinstance(test.ops[0], ast.Eq) and not polarity):
+            return {test.left.id}
+        return set()
     if isinstance(test, ast.BoolOp):
         if isinstance(test.op, ast.And) and polarity:
             return set().union(*(nonempty_facts(x, True) for x in test.values))
